@@ -169,7 +169,9 @@ def rewrite_files(
     """Rewrite project files, updating each with the new version."""
     fobj: typ.IO[str]
 
-    for file_data in iter_rewritten(file_patterns, new_vinfo):
+    # NOTE: Process all files before the first one is written, so that
+    #   an error (missing file, pattern without match) leaves all of them untouched.
+    for file_data in list(iter_rewritten(file_patterns, new_vinfo)):
         new_content = file_data.line_sep.join(file_data.new_lines)
         with io.open(file_data.path, mode="wt", newline='', encoding="utf-8") as fobj:
             fobj.write(new_content)
